@@ -12,5 +12,6 @@ From MV Require Tri.SubdivideQuadDefs.
 Definition subdivide_tris_q_f := SubdivideQuadDefs.subdivide_tris_q float 0%float 1%float flerp.
 Definition subdivide_numvert_q_f := SubdivideQuadDefs.subdivide_numvert_q float 0%float 1%float flerp.
 Extraction "../build/ml/c19_subq.ml" subdivide_tris_q_f subdivide_numvert_q_f.
-From MV Require Tri.SimplifyDefs.
-Extraction "../build/ml/c19_simplify.ml" SimplifyDefs.collapse_edge2 SimplifyDefs.swap_edge SimplifyDefs.num_live SimplifyDefs.slots SimplifyDefs.mkState.
+From MV Require Tri.SimplifyDefs Tri.SimplifyInvDefs.
+Extraction "../build/ml/c19_simplify.ml" SimplifyDefs.collapse_edge2 SimplifyDefs.swap_edge SimplifyDefs.num_live SimplifyDefs.slots SimplifyDefs.mkState
+  SimplifyInvDefs.pair_inv SimplifyInvDefs.collapse_edge2_guard SimplifyInvDefs.swap_edge_guard.
